@@ -545,6 +545,20 @@ pub fn closing_probe<G: Cv>(sh: &Shared<G>, h: &[u8]) -> Option<Vec<String>> {
         })
         .unwrap_or_else(|m| Err(format!("panicked: {}", m)))
     };
+    // control: the same history without the inserted wire constraints must be accepted, otherwise
+    // completeness itself is broken for it (C01's business) and the probe says nothing
+    let control = to_program(h);
+    let control_ok = guarded(|| {
+        let pr = program::prove::<G>(&control, &sh.env.pc, &sh.env.bp, sh.seed, "c16-probe", Dev::None);
+        match pr.proof.ok().and_then(|b| R1CSProof::<G>::from_bytes(&b).ok()) {
+            Some(proof) => program::verify::<G>(&control, &sh.env.pc, &sh.env.bp, sh.seed, Dev::None, &pr.commitments, &proof, program::LABEL).result.is_ok(),
+            None => false,
+        }
+    })
+    .unwrap_or(false);
+    if !control_ok {
+        return None;
+    }
     match run(Dev::None) {
         Ok(true) => {}
         other => problems.push(format!("{}: constraining the open gate's right wire and output to 0 was not accepted: {:?}", prog.name(), other)),
